@@ -216,8 +216,9 @@ class Env(object):
         ctx3 = asceprovider.PContextDef(3, uid.UID('1.2.840.10008.5.1.4.1.1.2'), uid.UID('1.2.840.10008.1.2'))
         self.prov.accepted_contexts = {1: ctx, 3: ctx3}
         got = set(k for k in vars(self.prov) if not k.startswith('_vp') and k not in _THREAD_ATTRS)
-        if not EXPECTED_PROVIDER_ATTRS <= got:
-            raise HarnessError('provider lost attributes %r: canonical state would be wrong' % (EXPECTED_PROVIDER_ATTRS - got))
+        missing = [k for k in EXPECTED_PROVIDER_ATTRS - got if not hasattr(self.prov, k)]
+        if missing:
+            raise HarnessError('provider lost attributes %r: canonical state would be wrong' % (missing,))
         self.extra_attrs = sorted(got - EXPECTED_PROVIDER_ATTRS)
         self.prov.__dict__['_vp'] = self
 
